@@ -65,6 +65,13 @@ impl SyncVecRd {
         let state = cvar
             .wait_while(lock.lock().unwrap(), |s| !s.failed && s.decoded < end)
             .unwrap();
+        #[cfg(jubako_verif)]
+        crate::verif::emit(
+            "WaitDone",
+            Arc::as_ptr(&self.decoded) as u64,
+            end as u64,
+            state.decoded as u64,
+        );
         if state.decoded < end {
             Err(std::io::Error::new(
                 std::io::ErrorKind::InvalidData,
@@ -78,6 +85,13 @@ impl SyncVecRd {
     #[inline]
     pub fn current_size(&self) -> usize {
         let (lock, _cvar) = &*self.decoded;
+        #[cfg(jubako_verif)]
+        {
+            let state = lock.lock().unwrap();
+            crate::verif::emit("Slice", Arc::as_ptr(&self.decoded) as u64, state.decoded as u64, 0);
+            return state.decoded;
+        }
+        #[allow(unreachable_code)]
         lock.lock().unwrap().decoded
     }
 
@@ -96,6 +110,8 @@ impl SyncVecRd {
 fn create_sync_vec(size: usize) -> (SyncVecWr, SyncVecRd) {
     let buffer = Arc::new(Vec::with_capacity(size));
     let decoded = Arc::new((Mutex::new(DecodeState::default()), Condvar::new()));
+    #[cfg(jubako_verif)]
+    crate::verif::emit("Buf", Arc::as_ptr(&decoded) as u64, size as u64, 0);
     let buffer_ptr = buffer.as_ptr();
     let rd = SyncVecRd {
         _arc: Arc::clone(&buffer),
@@ -142,17 +158,33 @@ fn decode_to_end<T: Read + Send>(
             )),
             other => other,
         };
+        #[cfg(jubako_verif)]
+        crate::verif::emit(
+            "Write",
+            Arc::as_ptr(&buffer.decoded) as u64,
+            (uncompressed + *read.as_ref().unwrap_or(&0)) as u64,
+            0,
+        );
         let (lock, cvar) = &*buffer.decoded;
         let mut state = lock.lock().unwrap();
         match read {
             Ok(read) => {
                 uncompressed += read;
                 state.decoded = uncompressed;
+                #[cfg(jubako_verif)]
+                crate::verif::emit(
+                    "Publish",
+                    Arc::as_ptr(&buffer.decoded) as u64,
+                    uncompressed as u64,
+                    0,
+                );
                 cvar.notify_all();
             }
             Err(e) => {
                 // Readers must not wait for bytes which will never come.
                 state.failed = true;
+                #[cfg(jubako_verif)]
+                crate::verif::emit("Fail", Arc::as_ptr(&buffer.decoded) as u64, uncompressed as u64, 0);
                 cvar.notify_all();
                 return Err(e);
             }
